@@ -54,6 +54,13 @@ CLAIMS = {
             "package; SnapshotProvider answers are def-use connected to the captured fields. Verdict equality with the live "
             "provider is not decided.",
             "DESIGN.md section 4 C16"),
+    "C18": ("lookup-before-alloc guard dominance (T-MEMO), who-may-mutate census on the arena's UnsafeCell, chunk-capacity agreement, API signature rule (MIR + impl tables)",
+            "Decides the structural clause of C18: the deduplicating intern functions allocate only on the miss edge of their "
+            "lookup and record the fresh id; resolve functions index the paired arena; through &self only Arena::alloc mutates the "
+            "storage and only by appending; inner chunks are created with the capacity chunk_and_offset divides by and receive "
+            "element len/CHUNK_SIZE, so they never reallocate (reference stability across chunk boundaries); ids are dense; "
+            "FrozenCopyMap returns copies only; unchecked indexing is behind index<len. Absence of UB under all histories is not decided.",
+            "DESIGN.md section 4 C18"),
     "C19": ("dimension analysis (T-DIM): forward abstract interpretation of integer kinds over the MIR of every Mapping method",
             "Decides the dimension clause of C19 on every path: bound comparisons are well-kinded (slot index vs slot end/last, "
             "chunk index vs chunk count - never the item count), unchecked accesses in safe methods are dominated by such a test, "
